@@ -272,8 +272,8 @@ Proof.
 Qed.
 
 Definition add_holder (o : own) (n : name) : own := mkOwn ((n, KHandle) :: o_holders o) (o_ents o).
-Ltac psimpl := cbn [d_log d_vals d_next d_made d_dropped d_defaults d_disp o_holders o_ents add_holder note_made note_dropped
-                    set_val emit with_defaults with_disp fst snd names map] in *.
+Ltac psimpl := cbn [d_log d_vals d_next d_made d_dropped d_defaults d_disp d_hid d_hlog o_holders o_ents add_holder note_made
+                    note_dropped set_val emit with_defaults with_disp with_h hpush set_hid fst snd names map] in *.
 
 Lemma no_ents_on_dead : forall o d n, Inv o d -> ~ In n (names (o_holders o)) ->
   forall e, In e (o_ents o) -> e_holder e <> n.
@@ -391,9 +391,9 @@ Proof.
 Qed.
 
 Lemma inv_enter : forall o d e, Inv o d -> In (e_holder e) (names (o_holders o)) ->
-  Inv (mkOwn (o_holders o) (e :: o_ents o)) (md (MEnterE e) d).
+  Inv (mkOwn (o_holders o) (e :: o_ents o)) (md0 (MEnterE e) d).
 Proof.
-  intros o d e I Hin. cbn [md]. rewrite !val_of_vlook.
+  intros o d e I Hin. cbn [md0]. rewrite !val_of_vlook.
   assert (Hents : forall x, In x (e :: o_ents o) -> In (e_holder x) (names (o_holders o))).
   { intros x [Hx|Hx]; [subst; assumption | apply (inv_ents _ _ I); assumption]. }
   destruct (vlook (d_vals d) (e_holder e)) as [| |i c] eqn:Ev.
@@ -409,9 +409,9 @@ Proof.
 Qed.
 
 Lemma inv_exit : forall o d e, Inv o d -> mem_ent e (o_ents o) = true ->
-  Inv (mkOwn (o_holders o) (remove_ent e (o_ents o))) (md (MExitE e) d).
+  Inv (mkOwn (o_holders o) (remove_ent e (o_ents o))) (md0 (MExitE e) d).
 Proof.
-  intros o d e I Hm. cbn [md]. rewrite !val_of_vlook.
+  intros o d e I Hm. cbn [md0]. rewrite !val_of_vlook.
   assert (Hin : In (e_holder e) (names (o_holders o))) by (apply (inv_ents _ _ I), mem_ent_In; assumption).
   assert (Hents : forall x, In x (remove_ent e (o_ents o)) -> In (e_holder x) (names (o_holders o))).
   { intros x Hx. apply (inv_ents _ _ I). eapply remove_ent_in; eassumption. }
@@ -429,9 +429,9 @@ Proof.
 Qed.
 
 Lemma inv_release : forall o d n t, Inv o d -> free o n = true ->
-  Inv (mkOwn (remove_name n (o_holders o)) (o_ents o)) (md (MRelease n t) d).
+  Inv (mkOwn (remove_name n (o_holders o)) (o_ents o)) (md0 (MRelease n t) d).
 Proof.
-  intros o d n t I Hf. destruct (free_spec _ _ Hf) as [Hin Hne]. cbn [md]. rewrite !val_of_vlook.
+  intros o d n t I Hf. destruct (free_spec _ _ Hf) as [Hin Hne]. cbn [md0]. rewrite !val_of_vlook.
   assert (Hnd : NoDup (names (remove_name n (o_holders o)))) by (apply names_remove_nodup, (inv_nodup _ _ I)).
   assert (Hents : forall x, In x (o_ents o) -> In (e_holder x) (names (remove_name n (o_holders o)))).
   { intros x Hx. apply names_remove_other; [apply Hne; assumption | apply (inv_ents _ _ I); assumption]. }
@@ -454,7 +454,7 @@ Lemma inv_make : forall o d n c t po, Inv o d -> ~ In n (names (o_holders o)) ->
   let i := d_next d in
   let d1 := emit d (ECall c t (CNew i po)) in
   Inv (add_holder o n)
-      (set_val (mkDyn (d_vals d1) (d_defaults d1) (i + 1) (d_log d1) ((i, c) :: d_made d1) (d_dropped d1) (d_disp d1)) n (SSpan i c)).
+      (set_val (mkDyn (d_vals d1) (d_defaults d1) (i + 1) (d_log d1) ((i, c) :: d_made d1) (d_dropped d1) (d_disp d1) (d_hid d1) (d_hlog d1)) n (SSpan i c)).
 Proof.
   intros o d n c t po I Hn i d1. pose proof (no_ents_on_dead _ _ _ I Hn) as Hne. subst d1.
   assert (Hz : forall c', cnt TNew (i, c') (d_log d) = 0%nat).
@@ -484,14 +484,14 @@ Proof. intros; unfold live; apply memN_false. Qed.
 Lemma inv_do_current_add : forall o d n t, Inv o d -> ~ In n (names (o_holders o)) ->
   Inv (add_holder o n) (do_current d n t).
 Proof.
-  intros o d n t I Hn. unfold do_current. destruct (cur_default d t =? 0); [apply inv_add_unlogged; auto|].
+  intros o d n t I Hn. unfold do_current. destruct ((cur_default d t =? 0) || per_handle (cur_default d t)); [apply inv_add_unlogged; auto|].
   destruct (stack_of (d_log d) (cur_default d t) t) as [|i rest] eqn:Es; [apply inv_add_unlogged; auto|].
   apply inv_add_clone; auto. eapply current_live; eassumption.
 Qed.
 Lemma inv_do_current_upd : forall o d n t, Inv o d -> free o n = true -> vlook (d_vals d) n = SNone ->
   Inv o (do_current d n t).
 Proof.
-  intros o d n t I Hf Hv. unfold do_current. destruct (cur_default d t =? 0); [apply inv_upd_unlogged; auto|].
+  intros o d n t I Hf Hv. unfold do_current. destruct ((cur_default d t =? 0) || per_handle (cur_default d t)); [apply inv_upd_unlogged; auto|].
   destruct (stack_of (d_log d) (cur_default d t) t) as [|i rest] eqn:Es; [apply inv_upd_unlogged; auto|].
   apply inv_upd_clone; auto. eapply current_live; eassumption.
 Qed.
@@ -516,13 +516,13 @@ Proof.
   constructor; psimpl; intros; rewrite ?Hh, ?ecnt_set_noents in * by assumption; auto.
 Qed.
 
-Lemma micro_preserves : forall m o d o', Inv o d -> mo m o = Some o' -> Inv o' (md m d).
+Lemma micro_preserves : forall m o d o', Inv o d -> mo m o = Some o' -> Inv o' (md0 m d).
 Proof.
   intros m o d o' I Hm. destruct m; cbn [mo] in Hm.
   - (* MNewSpan *)
     destruct (negb (live o n) && match parent_ref p with Some r => live o r | None => true end) eqn:E; [|discriminate].
     inversion Hm; subst o'; clear Hm. apply andb_true_iff in E. destruct E as [E _].
-    apply negb_true_iff, live_notIn in E. cbn [md].
+    apply negb_true_iff, live_notIn in E. cbn [md0].
     destruct (negb match h with ViaMacro en => en && negb (cur_default d t =? 0) | Direct => true end);
       [apply (inv_add_unlogged o d n SNone); auto|].
     destruct (cur_default d t =? 0); [apply (inv_add_unlogged o d n SNoColl); auto|].
@@ -530,21 +530,21 @@ Proof.
   - (* MCloneTo *)
     destruct (live o r && negb (live o n)) eqn:E; [|discriminate]. inversion Hm; subst o'; clear Hm.
     apply andb_true_iff in E. destruct E as [E1 E2]. apply live_In in E1. apply negb_true_iff, live_notIn in E2.
-    cbn [md]. rewrite val_of_vlook. destruct (vlook (d_vals d) r) as [| |i c] eqn:Ev.
+    cbn [md0]. rewrite val_of_vlook. destruct (vlook (d_vals d) r) as [| |i c] eqn:Ev.
     + apply (inv_add_unlogged o d n SNone); auto.
     + apply (inv_add_unlogged o d n SNoColl); auto.
     + apply inv_add_clone; auto. eapply hcnt_ge1; [exact E1|]. rewrite Ev; simpl; apply key_eqb_refl.
   - (* MCurrentTo *)
     destruct (negb (live o n)) eqn:E; [|discriminate]. inversion Hm; subst o'; clear Hm.
-    apply negb_true_iff, live_notIn in E. cbn [md]. apply inv_do_current_add; assumption.
+    apply negb_true_iff, live_notIn in E. cbn [md0]. apply inv_do_current_add; assumption.
   - (* MOrCurrent *)
     destruct (free o n) eqn:E; [|discriminate]. inversion Hm; subst o'; clear Hm.
-    cbn [md]. rewrite val_of_vlook. destruct (vlook (d_vals d) n) eqn:Ev; auto.
+    cbn [md0]. rewrite val_of_vlook. destruct (vlook (d_vals d) n) eqn:Ev; auto.
     apply inv_do_current_upd; assumption.
   - (* MRelease *)
     destruct (free o n) eqn:E; [|discriminate]. inversion Hm; subst o'; clear Hm. apply inv_release; assumption.
   - (* MSetKind *)
-    destruct (live o n) eqn:E; [|discriminate]. inversion Hm; subst o'; clear Hm. cbn [md].
+    destruct (live o n) eqn:E; [|discriminate]. inversion Hm; subst o'; clear Hm. cbn [md0].
     apply (inv_struct o d); psimpl; intros; rewrite ?names_set_kind, ?hcnt_set_kind; auto;
       [apply (inv_nodup _ _ I) | apply (inv_ents _ _ I); assumption].
   - (* MEnterE *)
@@ -555,29 +555,52 @@ Proof.
     apply inv_exit; assumption.
   - (* MRecord *)
     destruct (live o r) eqn:E; [|discriminate]. inversion Hm; subst o'; clear Hm. apply live_In in E.
-    cbn [md]. rewrite val_of_vlook. destruct (vlook (d_vals d) r) as [| |i c] eqn:Ev; auto.
+    cbn [md0]. rewrite val_of_vlook. destruct (vlook (d_vals d) r) as [| |i c] eqn:Ev; auto.
     apply inv_emit_neutral; [assumption | exact Logic.I |].
     apply (live_entry_ok o); [assumption | | discriminate]. eapply hcnt_ge1; [exact E|]. rewrite Ev; simpl; apply key_eqb_refl.
   - (* MFollows *)
     destruct (live o r && live o r') eqn:E; [|discriminate]. inversion Hm; subst o'; clear Hm.
     apply andb_true_iff in E. destruct E as [E _]. apply live_In in E.
-    cbn [md]. rewrite !val_of_vlook. destruct (vlook (d_vals d) r) as [| |i c] eqn:Ev; auto.
+    cbn [md0]. rewrite !val_of_vlook. destruct (vlook (d_vals d) r) as [| |i c] eqn:Ev; auto.
     destruct (id_of_val (vlook (d_vals d) r')); auto.
     apply inv_emit_neutral; [assumption | exact Logic.I |].
     apply (live_entry_ok o); [assumption | | discriminate]. eapply hcnt_ge1; [exact E|]. rewrite Ev; simpl; apply key_eqb_refl.
   - (* MMark *)
-    inversion Hm; subst o'; clear Hm. cbn [md]. apply inv_emit_neutral; [assumption | exact Logic.I | exact Logic.I].
-  - inversion Hm; subst o'; clear Hm. cbn [md]. apply inv_defaults; assumption.
-  - inversion Hm; subst o'; clear Hm. cbn [md]. apply inv_defaults; assumption.
+    inversion Hm; subst o'; clear Hm. cbn [md0]. apply inv_emit_neutral; [assumption | exact Logic.I | exact Logic.I].
+  - inversion Hm; subst o'; clear Hm. cbn [md0]. apply inv_defaults; assumption.
+  - inversion Hm; subst o'; clear Hm. cbn [md0]. apply inv_defaults; assumption.
   - (* MSetDisp *)
-    destruct (live o f); [|discriminate]. inversion Hm; subst o'; clear Hm. cbn [md]. apply inv_disp; assumption.
-  - inversion Hm; subst o'; clear Hm. cbn [md]. apply inv_defaults; assumption.
-  - inversion Hm; subst o'; clear Hm. cbn [md]. apply inv_disp; assumption.
+    destruct (live o f); [|discriminate]. inversion Hm; subst o'; clear Hm. cbn [md0]. apply inv_disp; assumption.
+  - inversion Hm; subst o'; clear Hm. cbn [md0]. apply inv_defaults; assumption.
+  - inversion Hm; subst o'; clear Hm. cbn [md0]. apply inv_disp; assumption.
   - (* MSwap *)
     destruct (free o a && free o b && negb (a =? b)) eqn:E; [|discriminate]. inversion Hm; subst o'; clear Hm.
     apply andb_true_iff in E. destruct E as [E E3]. apply andb_true_iff in E. destruct E as [E1 E2].
-    apply negb_true_iff, N.eqb_neq in E3. cbn [md]. cbv zeta. apply inv_swap; assumption.
+    apply negb_true_iff, N.eqb_neq in E3. cbn [md0]. cbv zeta. apply inv_swap; assumption.
 Qed.
+
+(** the ids on the wire ([mh]) are invisible to the invariant: it speaks about spans *)
+Lemma inv_with_h : forall o d a b nx, Inv o d -> d_next d <= nx -> Inv o (with_h d a b nx).
+Proof.
+  intros o d a b nx I Hn. destruct I. constructor; psimpl; auto. intros i Hi. apply inv_fresh0. lia.
+Qed.
+Lemma inv_mh : forall o m d d', Inv o d' -> Inv o (mh m d d').
+Proof.
+  intros o m d d' I.
+  assert (H0 : forall a b, Inv o (with_h d' a b (d_next d'))) by (intros; apply inv_with_h; [assumption | lia]).
+  assert (H1 : forall x, Inv o (hpush d' x)) by (intros; apply H0).
+  assert (H2 : forall x n h, Inv o (set_hid (hpush d' x) n h)).
+  { intros. unfold set_hid. apply inv_with_h; [apply H1 | cbn; lia]. }
+  assert (H3 : forall n h, Inv o (set_hid d' n h)) by (intros; apply H0).
+  destruct m; cbn [mh]; auto;
+    repeat match goal with
+           | |- Inv _ (match ?x with _ => _ end) => destruct x
+           | |- Inv _ (if ?x then _ else _) => destruct x
+           end; auto.
+  all: cbv zeta; apply inv_with_h; [assumption | lia].
+Qed.
+Lemma micro_preserves' : forall m o d o', Inv o d -> mo m o = Some o' -> Inv o' (md m d).
+Proof. intros. unfold md. apply inv_mh. eapply micro_preserves; eassumption. Qed.
 
 Lemma inv_init : Inv o_init d_init.
 Proof.
@@ -590,7 +613,7 @@ Lemma exec_preserves : forall ms s s', Inv (fst s) (snd s) -> exec ms s = Some s
 Proof.
   induction ms as [|m ms]; intros s s' I H; simpl in H; [inversion H; subst; assumption|].
   destruct (mo m (fst s)) as [o'|] eqn:E; [|discriminate].
-  apply IHms in H; [assumption|]. simpl. eapply micro_preserves; eassumption.
+  apply IHms in H; [assumption|]. simpl. eapply micro_preserves'; eassumption.
 Qed.
 Lemma step_preserves : forall s x s', Inv (fst s) (snd s) -> step s x = Some s' -> Inv (fst s') (snd s').
 Proof.
@@ -781,9 +804,9 @@ Definition mquiet_kind (m : micro) : bool :=
 
 Lemma md_quiet : forall m d, mquiet_kind m = true ->
   match msubject m with Some r => unlogged (val_of d r) = true | None => True end ->
-  quiet (d_log d) (d_log (md m d)) /\ (forall r, match m with MCloneTo _ n _ => r <> n | _ => True end -> val_of (md m d) r = val_of d r).
+  quiet (d_log d) (d_log (md0 m d)) /\ (forall r, match m with MCloneTo _ n _ => r <> n | _ => True end -> val_of (md0 m d) r = val_of d r).
 Proof.
-  intros m d Hk Hs. destruct m; try discriminate Hk; cbn [msubject] in Hs; cbn [md].
+  intros m d Hk Hs. destruct m; try discriminate Hk; cbn [msubject] in Hs; cbn [md0].
   - destruct (val_of d r) eqn:E; try discriminate Hs; (split; [apply quiet_refl|]);
       intros r0 Hr; unfold val_of, set_val; simpl; destruct (n =? r0) eqn:E2; try reflexivity;
       apply N.eqb_eq in E2; congruence.
@@ -801,6 +824,49 @@ Proof.
   - split; [apply quiet_refl | reflexivity].
 Qed.
 
+Lemma mh_log : forall m d d', d_log (mh m d d') = d_log d'.
+Proof.
+  intros m d d'. destruct m; cbn [mh]; try reflexivity;
+    repeat match goal with
+           | |- d_log (match ?x with _ => _ end) = _ => destruct x
+           | |- d_log (if ?x then _ else _) = _ => destruct x
+           end; reflexivity.
+Qed.
+Lemma mh_vals : forall m d d', d_vals (mh m d d') = d_vals d'.
+Proof.
+  intros m d d'. destruct m; cbn [mh]; try reflexivity;
+    repeat match goal with
+           | |- d_vals (match ?x with _ => _ end) = _ => destruct x
+           | |- d_vals (if ?x then _ else _) = _ => destruct x
+           end; reflexivity.
+Qed.
+Lemma mh_val_of : forall m d d' r, val_of (mh m d d') r = val_of d' r.
+Proof. intros; unfold val_of; rewrite mh_vals; reflexivity. Qed.
+Lemma mh_defaults : forall m d d', d_defaults (mh m d d') = d_defaults d'.
+Proof.
+  intros m d d'. destruct m; cbn [mh]; try reflexivity;
+    repeat match goal with
+           | |- d_defaults (match ?x with _ => _ end) = _ => destruct x
+           | |- d_defaults (if ?x then _ else _) = _ => destruct x
+           end; reflexivity.
+Qed.
+Lemma mh_disp : forall m d d', d_disp (mh m d d') = d_disp d'.
+Proof.
+  intros m d d'. destruct m; cbn [mh]; try reflexivity;
+    repeat match goal with
+           | |- d_disp (match ?x with _ => _ end) = _ => destruct x
+           | |- d_disp (if ?x then _ else _) = _ => destruct x
+           end; reflexivity.
+Qed.
+
+Lemma md_quiet' : forall m d, mquiet_kind m = true ->
+  match msubject m with Some r => unlogged (val_of d r) = true | None => True end ->
+  quiet (d_log d) (d_log (md m d)) /\ (forall r, match m with MCloneTo _ n _ => r <> n | _ => True end -> val_of (md m d) r = val_of d r).
+Proof.
+  intros m d Hk Hs. unfold md. rewrite mh_log. destruct (md_quiet m d Hk Hs) as [Hq Hv]. split; [exact Hq|].
+  intros r Hr. rewrite mh_val_of. apply Hv; exact Hr.
+Qed.
+
 Definition mcond (d : dyn) (m : micro) : Prop :=
   mquiet_kind m = true /\ match m with MCloneTo _ _ _ => False | _ => True end /\
   match msubject m with Some r => unlogged (val_of d r) = true | None => True end.
@@ -811,7 +877,7 @@ Proof.
   induction ms as [|m ms]; intros s s' H HF; simpl in H.
   - inversion H; subst. apply quiet_refl.
   - destruct (mo m (fst s)) as [o'|]; [|discriminate]. inversion HF as [|? ? [Hk [Hc Hs]] HF']; subst.
-    destruct (md_quiet m (snd s) Hk Hs) as [Hq Hv].
+    destruct (md_quiet' m (snd s) Hk Hs) as [Hq Hv].
     eapply quiet_trans; [exact Hq|]. apply (IHms _ _ H). simpl.
     eapply Forall_impl; [|exact HF']. intros m' [Hk' [Hc' Hs']]. repeat split; auto.
     destruct (msubject m'); auto. rewrite Hv; [assumption|]. destruct m; auto.
@@ -835,7 +901,7 @@ Proof.
   destruct a; try discriminate Hu; cbn [compile] in H; try (qfin H; fail).
   - (* Clone *)
     destruct (readable o r && negb (live o n)); [|discriminate]. simpl in H.
-    destruct (live o r && negb (live o n)); [|discriminate]. inversion H; subst; clear H. cbn [snd md].
+    destruct (live o r && negb (live o n)); [|discriminate]. inversion H; subst; clear H. cbn [snd md0].
     destruct (val_of d r); try discriminate Hu; apply quiet_refl.
   - (* Record chain *)
     destruct (readable o r); [|discriminate]. apply exec_quiet in H; auto. cbn [snd].
@@ -847,7 +913,7 @@ Proof.
   - (* CloneFut *)
     assert (Hq : forall k, exec [MCloneTo f n t; MSetKind n k; MCopyDisp f n] (o, d) = Some s' -> quiet (d_log d) (d_log (snd s'))).
     { intros k Hk. simpl in Hk; repeat (break_match_hyp Hk; simpl in Hk); inversion Hk; subst; clear Hk;
-        cbn [snd md with_disp set_val emit note_made d_log]; try discriminate Hu; try apply quiet_refl.
+        cbn [snd md0 with_disp set_val emit note_made d_log]; try discriminate Hu; try apply quiet_refl.
       all: destruct (val_of d f); try discriminate Hu; apply quiet_refl. }
     destruct (kind_of o f) as [[| |b]|]; try discriminate H;
       (destruct (readable o f && negb (live o n)); [|discriminate]); eapply Hq; exact H.
@@ -901,13 +967,13 @@ Proof.
   assert (Htop : forall es, top_frame (mkOwn (o_holders o) (mkEnt EPoll f t :: es)) t = Some (mkEnt EPoll f t)).
   { intros es. unfold top_frame. simpl. unfold is_control. simpl. rewrite N.eqb_refl. reflexivity. }
   assert (Hk' : forall es, kind_of (mkOwn (o_holders o) es) f = Some (KFutW b)) by (intros; exact Hk).
-  destruct b; cbn [exec mo md fst snd e_holder] in H; rewrite ?Hlive in H; cbn [exec mo md fst snd e_holder] in H;
+  destruct b; cbn [exec mo md0 fst snd e_holder] in H; rewrite ?Hlive in H; cbn [exec mo md0 fst snd e_holder] in H;
     inversion H; subst s'; clear H; cbn [fst snd];
     (split; [|split; [|split; [apply Hk'|]]]);
     try (intros r s'' H2; unfold step in H2; cbn [fst snd compile] in H2; rewrite Htop in H2; cbn [e_kind e_holder] in H2;
-         rewrite Hk' in H2; cbn [exec mo md fst snd e_holder o_ents o_holders] in H2; rewrite ?mem_ent_head in H2;
-         cbn [exec mo md fst snd e_holder o_ents o_holders] in H2; rewrite ?mem_ent_head in H2;
-         cbn [exec mo md fst snd e_holder o_ents o_holders] in H2; inversion H2; subst s''; clear H2; cbn [fst snd]);
+         rewrite Hk' in H2; cbn [exec mo md0 fst snd e_holder o_ents o_holders] in H2; rewrite ?mem_ent_head in H2;
+         cbn [exec mo md0 fst snd e_holder o_ents o_holders] in H2; rewrite ?mem_ent_head in H2;
+         cbn [exec mo md0 fst snd e_holder o_ents o_holders] in H2; inversion H2; subst s''; clear H2; cbn [fst snd]);
     unfold val_of, cur_default, disp_of; simpl;
     destruct (lookup (d_vals d) f) as [[| |i c]|] eqn:El; simpl; rewrite ?El; simpl;
     rewrite ?N.eqb_refl; try split; try reflexivity.
